@@ -5,7 +5,9 @@ import ScyllaVerif.Model.Prepared
 Case: `hist <nodes> <stmts> <steps>`
 * `<nodes>`  = `E,N,…`   one letter per node: `E` metadata-id extension negotiated, `N` not; `G` / `H` = `E` / `N`
                with a (scripted, shared) timestamp generator on every connection to the node
-* `<stmts>`  = `n1,l3,z2,…` per statement number: kind (`n` normal, `l` late, `z` late0) and initial shape 0..5
+* `<stmts>`  = `n1,l3t2,z2,…` per statement number: kind (`n` normal, `l` late, `z` late0), initial shape 0..5 and
+               optionally `t<0..7>`: how the caller writes the statement text (`textV`: whitespace, newlines, semicolon,
+               mixed case, non-ASCII); ids and PREPARE texts are printed as hex of the exact bytes
 * `<steps>`  = `;`-separated schedule (callers `k`, nodes `n`, statement numbers `s`):
     `N<k>.<s>.<n>`                                  caller k starts `Connection::prepare` of statement s on node n
     `A<k>.x.<s>.<n>.<u>.<cl>.<scl>.<ts>.<pg>.<ps>.<nv>`  caller k starts an execution (u = use_cached_result_metadata,
@@ -35,7 +37,7 @@ def showCols (cs : List Col) : String :=
   if cs.isEmpty then "-"
   else ",".intercalate (cs.map (fun c => c.name ++ ":" ++ (match c.ty with | .int => "int" | .text => "text")))
 
-def showSId (i : SId) : String := if i.stmt == 1000 then "bogus" else s!"q{i.stmt}v{i.ver}"
+def showSId (i : SId) : String := s!"{hexOfString i.text}#{i.ver}"
 
 def showOptId : Option Id → String
   | none => "~"
@@ -56,7 +58,7 @@ def showRows : Option (List (List Val)) → String
   | some rs => String.join (rs.map (fun r => "[" ++ ",".intercalate (r.map showVal) ++ "]"))
 
 def showReq (node : Nat) : Req → String
-  | .prepare t => s!">n{node} PREP {t}"
+  | .prepare t => s!">n{node} PREP x{hexOfString t}"
   | .execute r =>
     s!">n{node} EXEC id={showSId r.id} mid={showOptId r.mid} skip={if r.skip then 1 else 0} v={natList r.values} cl={r.cl} scl={showOpt toString r.scl} ts={showOpt toString r.ts} pg={showOpt toString r.pageSize} ps={showOpt id r.ps}"
   | .batch b =>
@@ -133,9 +135,9 @@ def tag (s : String) : Option (Char × Nat) :=
   | [] => none
 
 /-- one schedule entry → the state after it and what it printed (`none` = unparsable) -/
-def doStep (nNodes nStmts : Nat) (st : State) (idx : Nat) (w : String) : Option (State × List String) :=
+def doStep (nNodes : Nat) (tvs : List Nat) (st : State) (idx : Nat) (w : String) : Option (State × List String) :=
   let okN (n : Nat) : Bool := n < nNodes
-  let okS (s : Nat) : Bool := s < nStmts
+  let okS (s : Nat) : Bool := s < tvs.length
   match w.splitOn "." with
   | [] => none
   | h :: args =>
@@ -148,7 +150,7 @@ def doStep (nNodes nStmts : Nat) (st : State) (idx : Nat) (w : String) : Option 
       | 'N', [s, n] =>
         match s.toNat?, n.toNat? with
         | some s, some n =>
-          if okS s && okN n then let (st1, ob) := start st k (.prepare s n); some (st1, [showObs ob]) else none
+          if okS s && okN n then let (st1, ob) := start st k (.prepare s n (textV s (tvs.getD s 0))); some (st1, [showObs ob]) else none
         | _, _ => none
       | 'A', ["x", s, n, u, cl, scl, ts, pg, ps, nv] =>
         match s.toNat?, n.toNat?, bool01 u, cl.toNat?, optNat scl, optNat ts, optNat pg, optPs ps, nv.toNat? with
@@ -190,13 +192,13 @@ def doStep (nNodes nStmts : Nat) (st : State) (idx : Nat) (w : String) : Option 
       | 'E', ["li", on] => (bool01 on).map (fun on => let (st1, ob) := eventStep st k (.liar on); (st1, [showObs ob]))
       | _, _ => none
 
-def runSteps (nNodes nStmts : Nat) (st : State) : Nat → List String → Option (State × List String)
+def runSteps (nNodes : Nat) (tvs : List Nat) (st : State) : Nat → List String → Option (State × List String)
   | _, [] => some (st, [])
   | idx, w :: ws =>
-    match doStep nNodes nStmts st idx w with
+    match doStep nNodes tvs st idx w with
     | none => none
     | some (st1, out) =>
-      match runSteps nNodes nStmts st1 (idx + 1) ws with
+      match runSteps nNodes tvs st1 (idx + 1) ws with
       | none => none
       | some (st2, rest) => some (st2, out ++ rest)
 
@@ -206,12 +208,16 @@ def parseKind : Char → Option Kind
   | 'z' => some .late0
   | _ => none
 
-def parseStmt (w : String) : Option SrvStmt :=
+def parseStmt (w : String) : Option (SrvStmt × Nat) :=
   match w.toList with
   | [k, d] =>
     match parseKind k, (String.ofList [d]).toNat? with
-    | some k, some sh => some ⟨0, shapeMeta sh, k, false⟩
+    | some k, some sh => some (⟨0, shapeMeta sh, k, false⟩, 0)
     | _, _ => none
+  | [k, d, 't', v] =>
+    match parseKind k, (String.ofList [d]).toNat?, (String.ofList [v]).toNat? with
+    | some k, some sh, some tv => if tv < 8 then some (⟨0, shapeMeta sh, k, false⟩, tv) else none
+    | _, _, _ => none
   | _ => none
 
 def parseNode (stmts : List SrvStmt) (w : String) : Option Node :=
@@ -222,7 +228,7 @@ def parseNode (stmts : List SrvStmt) (w : String) : Option Node :=
   else if w == "H" then some ⟨false, true, [], st, false, none⟩
   else none
 
-def dummyStmt : Stmt := ⟨"", ⟨0, 0⟩, RMeta.empty, RMeta.empty⟩
+def dummyStmt : Stmt := ⟨"", ⟨"", 0⟩, RMeta.empty, RMeta.empty⟩
 
 def endDump (st : State) (nStmts : Nat) : String :=
   "end " ++ " ".intercalate ((List.range nStmts).map (fun s =>
@@ -235,7 +241,9 @@ def run (case _impl : String) : String :=
   | ["hist", nodes, stmts, steps] =>
     match (stmts.splitOn ",").mapM parseStmt with
     | none => "bad-case"
-    | some ss =>
+    | some sst =>
+      let ss := sst.map (·.1)
+      let tvs := sst.map (·.2)
       match (nodes.splitOn ",").mapM (parseNode ss) with
       | none => "bad-case"
       | some ns =>
@@ -243,7 +251,7 @@ def run (case _impl : String) : String :=
           { objs := fun _ => dummyStmt, nObjs := 0, slot := fun _ => none,
             node := fun i => ns.getD i ⟨false, false, [], fun _ => ⟨0, shapeMeta 0, .normal, false⟩, false, none⟩,
             caller := fun _ => ⟨.idle, .none⟩, tsCtr := 0 }
-        match runSteps ns.length ss.length st0 0 ((steps.splitOn ";").filter (· ≠ "")) with
+        match runSteps ns.length tvs st0 0 ((steps.splitOn ";").filter (· ≠ "")) with
         | none => "bad-case"
         | some (st, out) => " ; ".intercalate (out ++ [endDump st ss.length])
   | _ => "bad-case"
